@@ -3558,10 +3558,30 @@ func lemmaForwardSession(raw *rawEnvelope) (e *Session, e3 *Session, accepted bo
 //@   ensures result != nil && fresh(result) && result.envChan != nil && result.done != nil && !result.closed && result.remote == nil && result.addr == addr
 
 //@ func newInProcessTransportPair :: (addr, bufferSize) (client, server)
-//@   props C04 C14
+//@   props C04 C14 C17
 //@   modifies nothing
 //@   panics only-if bufferSize < 0
-//@   ensures [C04,C14] @paired inprocPair(client) && inprocPair(server) && client.remote == server && !client.closed && !server.closed
+//@   ensures [C04,C14,C17] @paired inprocPair(client) && inprocPair(server) && client.remote == server && !client.closed && !server.closed && fresh(client) && fresh(server)
+
+// A dialled in-process connection is one fresh pair: the dialling side gets one end, the
+// listener's queue the other (C17: no two sessions share a transport object; C04: the two
+// ends are wired to each other and to nothing else).
+//@ func (*inProcessTransportListener).newClient :: (l, addr, bufferSize) (result)
+//@   props C04 C17
+//@   requires l != nil
+//@   panics only-if bufferSize < 0
+//@   modifies nothing
+//@   ensures [C04,C17] @ownpair inprocPair(result) && !result.closed && fresh(result) && fresh(result.remote)
+//@ func DialInProcess :: (addr, bufferSize) (result0, result1)
+//@   props C04 C17
+//@   panics only-if bufferSize < 0
+//@   modifies nothing
+//@   ensures [C04,C17] @ownpair result1 == nil ==> istype(result0, *inProcessTransport) && inprocPair(result0.(*inProcessTransport)) && fresh(result0.(*inProcessTransport)) && !result0.(*inProcessTransport).closed
+//@   ensures [C04,C17] @refusedmeansnothing result1 != nil ==> result0 == nil
+//@ func (*inProcessTransportListener).newClient$1
+//@   props C04 C17
+//@   requires l != nil && server != nil
+//@   modifies nothing
 
 // ---------------------------------------------------------------------------
 // WebSocket transport: the implementation behind the Transport model. One
